@@ -47,3 +47,9 @@ ENTRIES = [
     N('normalize-path-inline', "    path = percent_encode(flatten_path(path, flatten_slashes=True), encoding=encoding)\n    return uppercase_percent_encoding(path)",
       "    flat = flatten_path(path, flatten_slashes=True)\n    encoded = percent_encode(flat, encoding=encoding)\n    return uppercase_percent_encoding(encoded)"),
 ]
+
+ENTRIES += [
+    B('forbidden-host-chars-no-slash', "FORBIDDEN_HOSTNAME_CHARS = frozenset('#%/:?@[\\\\] ')", "FORBIDDEN_HOSTNAME_CHARS = frozenset('#%:?@[\\\\] ')", 'C10-D1'),
+    B('forbidden-host-chars-authority-only', "FORBIDDEN_HOSTNAME_CHARS = frozenset('#%/:?@[\\\\] ')", "FORBIDDEN_HOSTNAME_CHARS = frozenset('%:@[\\\\] ')", 'C10-D1'),
+    N('forbidden-host-chars-extended', "FORBIDDEN_HOSTNAME_CHARS = frozenset('#%/:?@[\\\\] ')", "FORBIDDEN_HOSTNAME_CHARS = frozenset(' #%/:?@[\\\\]^|')"),
+]
